@@ -227,6 +227,95 @@ def scripts_for(kind, quick):
     return out
 
 
+# ---------------------------------------------------------------- several waiters at once (the listener registry itself)
+def run_waiters(case):
+    ver, n, script = case
+
+    async def main(loop):
+        app, ezsp, gw, ncp = await apprig.make_app(loop, ver)
+        t = ncp.t
+        E, S = t.EmberStatus, t.sl_Status
+        vals = {"up": S.NETWORK_UP, "down": S.NETWORK_DOWN, "other": S.ZIGBEE_NETWORK_OPENED} if ver >= 14 else \
+               {"up": E.NETWORK_UP, "down": E.NETWORK_DOWN, "other": E.NETWORK_OPENED}
+        want = {"up": t.sl_Status.NETWORK_UP, "down": t.sl_Status.NETWORK_DOWN}
+        base = sum(len(v) for v in ezsp._stack_status_listeners.values())
+        fin = []
+        tasks = {}
+        trace = [{"a": "cfg", "n": n, "ver": ver}]
+
+        async def waiter(i, st, tmo):
+            try:
+                with ezsp.wait_for_stack_status(want[st]) as fut:
+                    async with asyncio.timeout(tmo):
+                        await fut
+                fin.append({"i": i, "how": "got"})
+            except asyncio.CancelledError:
+                fin.append({"i": i, "how": "cancelled"})
+            except asyncio.TimeoutError:
+                fin.append({"i": i, "how": "timeout"})
+            except BaseException as e:  # noqa
+                fin.append({"i": i, "how": "raised:" + type(e).__name__})
+
+        def flush(ev):
+            ev["fin"] = sorted(fin, key=lambda f: f["i"])
+            fin.clear()
+            ev["reg"] = sum(len([f for f in v if not f.done()]) for v in ezsp._stack_status_listeners.values()) - base
+            ev["t"] = loop.ms
+            trace.append(ev)
+        for step in script:
+            k = step[0]
+            if k == "enter":
+                tasks[step[1]] = asyncio.Task(waiter(step[1], step[2], step[3]), loop=loop, eager_start=True)
+                await apprig.settle(loop)
+                flush({"a": "enter", "i": step[1], "st": step[2]})
+            elif k == "status":
+                try:
+                    ncp.callback("stackStatusHandler", [vals[step[1]]], now=True)
+                except BaseException as e:  # noqa
+                    fin.append({"i": 0, "how": "raised:" + type(e).__name__})
+                await apprig.settle(loop)
+                flush({"a": "status", "st": step[1]})
+            elif k == "cancel":
+                tk = tasks.get(step[1])
+                if tk is None or tk.done():
+                    continue
+                tk.cancel()
+                await apprig.settle(loop)
+                flush({"a": "cancel", "i": step[1]})
+            elif k == "tick":
+                when = apprig.next_timer(loop)
+                if when is None:
+                    continue
+                loop._vnow = max(loop._vnow, when)
+                await apprig.settle(loop)
+                flush({"a": "tick"})
+            elif k == "end":
+                await apprig.settle(loop)
+                pend = [tk for tk in tasks.values() if not tk.done()]
+                trace.append({"a": "end", "pending": len(pend), "t": loop.ms,
+                              "listeners": sum(len(v) for v in ezsp._stack_status_listeners.values()) - base})
+                for tk in pend:
+                    tk.cancel()
+                await apprig.settle(loop)
+        return trace
+    return vloop.run(main)
+
+
+def waiter_cases(quick):
+    out = []
+    acts = [("status", "up"), ("status", "down"), ("status", "other"), ("cancel", 1), ("cancel", 2), ("tick",)]
+    for n in (2, 3):
+        for sts in itertools.product(("up", "down"), repeat=n):
+            enters = [("enter", i + 1, sts[i], 5 + 3 * i) for i in range(n)]
+            for seq in itertools.product(acts, repeat=2 if quick else 3):
+                # one waiter may join in the middle, and one re-enter after the events
+                for late in (False, True):
+                    s = (enters[:-1] if late else enters) + [seq[0]] + ([enters[-1]] if late else []) + list(seq[1:])
+                    s += [("enter", n + 1, "up", 2), ("status", "up"), ("tick",), ("tick",), ("tick",), ("tick",), ("end",)]
+                    out.append((n + 1, s))
+    return out
+
+
 def sig(meta, v, tr):
     e = tr[v.stuck_at - 1] if v.stuck_at and v.stuck_at <= len(tr) else {}
     outs = ",".join(o["o"] + ":" + str(o.get("res", o.get("name", ""))) for o in e.get("out", [])[:3])
@@ -278,6 +367,17 @@ def run(ctx: Ctx):
                 "operation; distinct = distinct (version, kind, script)")
     ctx.add_sample({"case": [cases[3][0], cases[3][1], cases[3][2]], "trace": traces[3]})
     ctx.validate_traces("Trace_EventOps", traces, constants=c, metas=[list(x) for x in cases], label="event ops", sig=sig)
+    # several operations waiting at once: the listener registry under concurrent waiters (every waiter of a status is resolved by its event)
+    ctx.model_check("StatusWaitersMC", "MC_StatusWaiters", constants={"Ids": "{1, 2, 3}", "MaxEvents": "3"}, invariants=("NoMiss", "NoSpurious"),
+                    required_actions=("Enter", "Status", "Exit"))
+    wcases = [(ver, n, s) for (n, s) in waiter_cases(ctx.quick) for ver in ((8, 14) if ctx.quick else (4, 8, 13, 14))]
+    wtraces = pmap(run_waiters, wcases, chunksize=32)
+    ctx.evaluations += len(wtraces)
+    ctx.distinct_nontrivial += len(wcases)
+    ctx.validate_traces("Trace_StatusWaiters", wtraces, metas=[["waiters"] + list(x) for x in wcases], label="concurrent waiters",
+                        sig=lambda m, v, tr: f"trace:StatusWaiters:{(tr[v.stuck_at - 1] if v.stuck_at and v.stuck_at <= len(tr) else {}).get('a')}")
+    ctx.rule += ("; concurrent waiters: 2..3 tasks inside wait_for_stack_status for up / down in every combination, one possibly joining late, every "
+                 "sequence of 2 (3) of {up, down, other status, cancel 1, cancel 2, timeout}, then a re-entering waiter")
     ctx.exhaustive = True
     ctx.assumptions += ["zigpy.util.Requests shim for the bring-up operation; the harness plays the NCP at frame level (EzspRig-style fake gateway, NcpEzsp encoder)",
                         "listener / callback residue is read from EZSP._stack_status_listeners and EZSP._callbacks (bookkeeping the property names)",
@@ -286,6 +386,11 @@ def run(ctx: Ctx):
 
 def replay(ctx: Ctx, data):
     m = data["replay"]["meta"]
+    if m and m[0] == "waiters":
+        tr = run_waiters((m[1], m[2], [tuple(x) for x in m[3]]))
+        ctx.validate_traces("Trace_StatusWaiters", [tr], metas=[m], label="concurrent waiters")
+        ctx.add_sample(tr)
+        return
     script = [tuple(s) for s in m[2]]
     tr = run_case((m[0], m[1], script, m[3]))
     ctx.validate_traces("Trace_EventOps", [tr], constants=consts(), metas=[m], label="event ops", sig=sig)
